@@ -7,10 +7,39 @@ From PV Require Import Base.RealTac Spec.LibSpecs Spec.Ellipsoid.
 From PV Require Import Gen.Earth Gen.Transform Gen.NumbaIntegrate.
 Open Scope R_scope.
 
+Ltac fold_minus :=
+  repeat match goal with |- context [?a + - ?b] => change (a + - b) with (a - b) end.
+
+(* Bring every spelling of  W = 1 - e2 sin^2 x  and of  1 - sin^2 x  (commuted products, squares written
+   either way, inside or outside a square root) to ONE canonical spelling, so that the proofs below do not
+   depend on the order in which the traced code multiplies its factors. *)
+Ltac canon_W :=
+  repeat match goal with
+  | |- context [1 - ?t] =>
+      lazymatch t with
+      | 66943799901413 / 10000000000000000 * (sin ?x * sin ?x) => fail
+      | sin ?x * sin ?x => fail
+      | context [sin ?x] =>
+          first [ replace (1 - t) with (1 - 66943799901413 / 10000000000000000 * (sin x * sin x)) by ring
+                | replace (1 - t) with (1 - sin x * sin x) by ring ]
+      end
+  | |- context [sqrt ?a] =>
+      lazymatch a with
+      | 1 - 66943799901413 / 10000000000000000 * (sin ?x * sin ?x) => fail
+      | 1 - sin ?x * sin ?x => fail
+      | context [sin ?x] =>
+          first [ replace a with (1 - 66943799901413 / 10000000000000000 * (sin x * sin x)) by ring
+                | replace a with (1 - sin x * sin x) by ring ]
+      end
+  end.
+
+Ltac canon := fold_minus; canon_W.
+
+(* the unfolding tactics (also used by other developments) leave the goal with W in its canonical spelling *)
 Ltac unf_ecef := unfold lla_to_ecef_r0, lla_to_ecef_r1, lla_to_ecef_r2;
-                 repeat autounfold with lla_to_ecef_db.
+                 repeat autounfold with lla_to_ecef_db; canon_W.
 Ltac unf_radii := unfold principal_radii_rn, principal_radii_re, principal_radii_rp;
-                  repeat autounfold with principal_radii_db.
+                  repeat autounfold with principal_radii_db; canon_W.
 Ltac unf_en := unfold mat_en_from_ll_m00, mat_en_from_ll_m01, mat_en_from_ll_m02,
                  mat_en_from_ll_m10, mat_en_from_ll_m11, mat_en_from_ll_m12,
                  mat_en_from_ll_m20, mat_en_from_ll_m21, mat_en_from_ll_m22;
@@ -26,9 +55,6 @@ Ltac with_q phi :=
   assert (q <> 0) by lra;
   assert (0 < 1 - 66943799901413 / 10000000000000000 * (sin phi * sin phi)) by (apply W_pos').
 
-Ltac fold_minus :=
-  repeat match goal with |- context [?a + - ?b] => change (a + - b) with (a - b) end.
-
 (* make the numeric constants abstract so that [ring [H..]] can use q*q = 1 - e2*s*s *)
 Ltac abs_consts :=
   replace (9933056200098587 / 10000000000000000)
@@ -42,7 +68,7 @@ Lemma ecef_on_ellipsoid lat lon :
   on_ellipsoid A_ E2_ (lla_to_ecef_r0 lat lon 0) (lla_to_ecef_r1 lat lon 0)
                (lla_to_ecef_r2 lat lon 0).
 Proof.
-  unfold on_ellipsoid, b2. unf_ecef.
+  unfold on_ellipsoid, b2. unf_ecef. canon.
   set (phi := lat * (PI/180)). set (lam := lon * (PI/180)).
   with_q phi.
   pose proof (sc1 phi) as Hp. pose proof (sc1 lam) as Hl.
@@ -68,7 +94,7 @@ Lemma ecef_normal lat lon :
   grad_z A_ E2_ x y z = k * up_z phi lam.
 Proof.
   cbv zeta. unfold grad_x, grad_y, grad_z, b2, R_transverse, W2, up_x, up_y, up_z, d2r.
-  unf_ecef. set (phi := lat * (PI/180)). set (lam := lon * (PI/180)).
+  unf_ecef. canon. set (phi := lat * (PI/180)). set (lam := lon * (PI/180)).
   unfold A_, E2_. with_q phi.
   repeat split; field; lra.
 Qed.
@@ -80,7 +106,7 @@ Lemma radii_are_principal lat alt :
   principal_radii_re lat alt = R_transverse A_ E2_ phi + alt /\
   principal_radii_rp lat alt = (R_transverse A_ E2_ phi + alt) * cos phi.
 Proof.
-  intros Hlat. cbv zeta. unfold R_meridian, R_transverse, W2, d2r. unf_radii.
+  intros Hlat. cbv zeta. unfold R_meridian, R_transverse, W2, d2r. unf_radii. canon.
   set (phi := lat * (PI/180)).
   rewrite (sqrt_1msin2 phi) by (apply cos_d2r_nonneg; exact Hlat).
   unfold A_, E2_. with_q phi.
@@ -188,8 +214,8 @@ Proof.
   intros Hlat. cbv zeta. unfold north_x, north_y, north_z, d2r. unf_radii. unf_ecef.
   pose proof (W_pos' (lat * (PI/180))) as HW.
   pose proof (sqrtW_pos (lat * (PI/180))) as HQ.
-  split; [|split]; (auto_derive; [repeat split; auto; unfold Rminus in *; lra|]);
-    fold_minus; set (phi := lat * (PI/180)) in *; set (lam := lon * (PI/180)); with_q phi;
+  split; [|split]; (auto_derive; [canon; repeat split; auto; lra|]);
+    canon; set (phi := lat * (PI/180)) in *; set (lam := lon * (PI/180)); with_q phi;
     assert (Hc : cos phi * cos phi = 1 - sin phi * sin phi) by (pose proof (sc1 phi); lra);
     abs_consts;
     match goal with H : ?q * ?q = 1 - _ |- _ =>
@@ -204,7 +230,7 @@ Lemma ecef_partial_lon lat lon alt :
   is_derive (fun t => lla_to_ecef_r1 lat t alt) lon (k * east_y phi lam) /\
   is_derive (fun t => lla_to_ecef_r2 lat t alt) lon (k * east_z phi lam).
 Proof.
-  intros Hlat. cbv zeta. unfold east_x, east_y, east_z, d2r. unf_radii. unf_ecef.
+  intros Hlat. cbv zeta. unfold east_x, east_y, east_z, d2r. unf_radii. unf_ecef. canon.
   rewrite (sqrt_1msin2 (lat * (PI/180))) by (apply cos_d2r_nonneg; exact Hlat).
   split; [|split]; (auto_derive; [auto|]); ring.
 Qed.
@@ -272,6 +298,92 @@ Proof.
   intros Hex H0. auto_derive; [exact Hex|]. rewrite H0. ring.
 Qed.
 
+Lemma R_meridian_ge phi : 6000000 <= R_meridian A_ E2_ phi.
+Proof.
+  unfold R_meridian, W2, A_, E2_. with_q phi.
+  match goal with H : ?q * ?q = _ |- _ => rewrite <- H end.
+  assert (q * q <= 1) by (pose proof (sin2_le1 phi); nra).
+  assert (q <= 1) by nra.
+  apply Rmult_le_reg_r with (q * q * q); [nra|].
+  replace (6378137 * (1 - 66943799901413 / 10000000000000000) / (q * q * q) * (q * q * q))
+    with (6378137 * (1 - 66943799901413 / 10000000000000000)) by (field; lra).
+  assert (q * q * q <= 1) by nra. nra.
+Qed.
+
+Lemma R_transverse_ge phi : 6378137 <= R_transverse A_ E2_ phi.
+Proof.
+  unfold R_transverse, W2, A_, E2_. with_q phi.
+  assert (q * q <= 1) by (pose proof (sin2_le1 phi); nra).
+  assert (q <= 1) by nra.
+  apply Rmult_le_reg_r with q; [lra|]. replace (6378137 / q * q) with 6378137 by (field; lra). nra.
+Qed.
+
+(* facts that close the side conditions [field] leaves when a generated radius (+ altitude) is a denominator *)
+Ltac radii_facts q :=
+  match goal with Hq : q * q = 1 - _ * (sin ?x * sin ?x) |- _ =>
+    let s := constr:(sin x) in
+    assert (q * q <= 1) by (pose proof (sin2_le1 x); nra);
+    assert (q <= 1) by nra;
+    assert (0 < q * q * q) by (apply Rmult_lt_0_compat; nra);
+    assert (q * q * q <= 1) by nra;
+    assert (10000000000000000 - 66943799901413 * (s * s) = 10000000000000000 * (q * q)) by lra
+  end.
+
+(* close the conjunction of side conditions left by [field] in the characterising lemmas below *)
+Ltac radii_side q :=
+  repeat split; try apply PI_neq0; try lra;
+  try match goal with E : _ = 10000000000000000 * (q * q) |- _ => rewrite ?E end;
+  apply Rgt_not_eq; nra.
+
+(** the generated perturb_lla / compute_lla_difference in terms of the specification radii *)
+Lemma perturb_lla_char lat lon alt d0 d1 d2 :
+  -90 < lat < 90 -> -6000000 < alt ->
+  let phi := lat * (PI / 180) in
+  perturb_lla_lat lat lon alt d0 d1 d2 = lat + d0 * (/ (R_meridian A_ E2_ phi + alt) * (180 / PI)) /\
+  perturb_lla_lon lat lon alt d0 d1 d2 =
+    lon + d1 * (/ ((R_transverse A_ E2_ phi + alt) * cos phi) * (180 / PI)) /\
+  perturb_lla_alt lat lon alt d0 d1 d2 = alt - d2.
+Proof.
+  intros Hlat Halt. cbv zeta.
+  unfold perturb_lla_lat, perturb_lla_lon, perturb_lla_alt. repeat autounfold with perturb_lla_db.
+  unfold R_meridian, R_transverse, W2, A_, E2_. canon.
+  rewrite ?(sqrt_1msin2 (lat * (PI/180))) by (apply cos_d2r_nonneg; lra).
+  pose proof (cos_d2r_pos lat Hlat) as Hc.
+  set (phi := lat * (PI/180)) in *. with_q phi. radii_facts q.
+  split; [|split]; [field; radii_side q | field; radii_side q | ring].
+Qed.
+
+Lemma lla_difference_char lat1 lon1 alt1 lat2 lon2 alt2 :
+  let phim := 1 / 2 * (lat1 + lat2) * (PI / 180) in let altm := 1 / 2 * (alt1 + alt2) in
+  compute_lla_difference_d0 lat1 lon1 alt1 lat2 lon2 alt2 =
+    (lat1 - lat2) * (PI / 180) * (R_meridian A_ E2_ phim + altm) /\
+  compute_lla_difference_d1 lat1 lon1 alt1 lat2 lon2 alt2 =
+    (lon1 - lon2) * (PI / 180) * ((R_transverse A_ E2_ phim + altm) * sqrt (1 - sin phim * sin phim)) /\
+  compute_lla_difference_d2 lat1 lon1 alt1 lat2 lon2 alt2 = - (alt1 - alt2).
+Proof.
+  cbv zeta. unfold compute_lla_difference_d0, compute_lla_difference_d1, compute_lla_difference_d2.
+  repeat autounfold with compute_lla_difference_db.
+  unfold R_meridian, R_transverse, W2, A_, E2_. canon.
+  set (phim := 1 / 2 * (lat1 + lat2) * (PI / 180)). with_q phim.
+  split; [|split]; [field; lra | field; lra | ring].
+Qed.
+
+Lemma R_meridian_ex_derive (g : R -> R) d : ex_derive g d -> ex_derive (fun t => R_meridian A_ E2_ (g t)) d.
+Proof.
+  intro Hg. unfold R_meridian, W2, A_, E2_.
+  pose proof (W_pos' (g d)) as HW. pose proof (sqrtW_pos (g d)) as HQ.
+  auto_derive. fold_minus. repeat split; auto; try lra. apply Rgt_not_eq. nra.
+Qed.
+
+Lemma R_transverse_ex_derive (g : R -> R) d : ex_derive g d -> ex_derive (fun t => R_transverse A_ E2_ (g t)) d.
+Proof.
+  intro Hg. unfold R_transverse, W2, A_, E2_.
+  pose proof (W_pos' (g d)) as HW. pose proof (sqrtW_pos (g d)) as HQ.
+  auto_derive. fold_minus. repeat split; auto; lra.
+Qed.
+
+Ltac ring_R := match goal with |- @eq _ ?a ?b => change (@eq R a b) end; ring.
+
 Lemma perturb_diff_first_order lat lon alt :
   -90 < lat < 90 -> -1000000 <= alt ->
   is_derive (fun d => compute_lla_difference_d0 (perturb_lla_lat lat lon alt d 0 0)
@@ -284,57 +396,88 @@ Lemma perturb_diff_first_order lat lon alt :
                         (perturb_lla_lon lat lon alt 0 0 d) (perturb_lla_alt lat lon alt 0 0 d)
                         lat lon alt) 0 1.
 Proof.
-  intros Hlat Halt. unf_pd.
-  pose proof (rn_pos (lat * (PI/180)) alt Halt) as Hrn.
-  pose proof (re_pos (lat * (PI/180)) alt Halt) as Hre.
-  pose proof (W_pos' (lat * (PI/180))) as HW.
-  pose proof (sqrtW_pos (lat * (PI/180))) as HQ.
-  assert (Hlat' : -90 <= lat <= 90) by lra.
-  pose proof (cos_d2r_pos lat Hlat) as Hcos.
-  assert (Hs : sqrt (1 - sin (lat * (PI/180)) * sin (lat * (PI/180))) = cos (lat * (PI/180)))
-    by (apply sqrt_1msin2; lra).
+  intros Hlat Halt.
+  assert (Halt' : -6000000 < alt) by lra.
+  set (phi := lat * (PI / 180)).
+  pose proof (R_meridian_ge phi) as HM. pose proof (R_transverse_ge phi) as HT.
+  pose proof (cos_d2r_pos lat Hlat) as Hcos. fold phi in Hcos.
   pose proof PI_RGT_0 as Hpi.
+  set (cn := / (R_meridian A_ E2_ phi + alt) * (180 / PI)).
+  set (ce := / ((R_transverse A_ E2_ phi + alt) * cos phi) * (180 / PI)).
+  assert (Hs : sqrt (1 - sin phi * sin phi) = cos phi) by (apply sqrt_1msin2; lra).
   split; [|split].
-  - match goal with |- is_derive (fun d => (?l + d / ?rn0 * ?r - ?l) * ?c * @?rmid d) 0 1 =>
-      apply (is_derive_ext (fun d => d * (/ rn0 * r * c * rmid d)));
-        [intro d; cbv beta; unfold Rdiv; match goal with |- @eq _ ?a ?b => change (@eq R a b) end; ring|];
-      apply deriv_at0_of_factor
-    end.
-    + auto_derive. clean_mid.
-      repeat split; auto; unfold Rminus in *; try lra; apply Rgt_not_eq; lra.
-    + cbv beta. clean_mid.
-      match goal with |- / ?rn0 * _ * _ * _ = 1 => set (r := rn0) in * end.
-      field. repeat split; try apply PI_neq0; apply Rgt_not_eq; assumption.
-  - match goal with |- is_derive (fun d => (?l + d / ?rp0 * ?r - ?l) * ?c * ?rmid) 0 1 =>
-      apply (is_derive_ext (fun d => d * (/ rp0 * r * c * rmid)));
-        [intro d; cbv beta; unfold Rdiv; match goal with |- @eq _ ?a ?b => change (@eq R a b) end; ring|];
-      apply deriv_at0_of_factor
-    end.
-    + auto_derive. exact I.
-    + clean_mid. rewrite Hs.
-      match goal with |- / (?re0 * _) * _ * _ * _ = 1 => set (r := re0) in * end.
-      field. repeat split; try apply PI_neq0; apply Rgt_not_eq; assumption.
-  - auto_derive; [auto|]. ring.
+  - (* north: d -> d * rho d with rho 0 = 1 *)
+    apply (is_derive_ext (fun d => d * (cn * (PI / 180) *
+             (R_meridian A_ E2_ (1 / 2 * (lat + d * cn + lat) * (PI / 180)) + 1 / 2 * (alt - 0 + alt))))).
+    { intro d. destruct (perturb_lla_char lat lon alt d 0 0 Hlat Halt') as [P1 [P2 P3]]. cbv zeta in *.
+      fold phi cn ce in P1, P2. rewrite P1, P2, P3.
+      destruct (lla_difference_char (lat + d * cn) (lon + 0 * ce) (alt - 0) lat lon alt) as [E0 _].
+      cbv zeta in E0. rewrite E0. ring_R. }
+    apply deriv_at0_of_factor.
+    + apply ex_derive_mult; [apply ex_derive_const|].
+      apply @ex_derive_plus; [|apply ex_derive_const].
+      apply (R_meridian_ex_derive (fun d => 1 / 2 * (lat + d * cn + lat) * (PI / 180))). auto_derive. exact I.
+    + replace (1 / 2 * (lat + 0 * cn + lat) * (PI / 180)) with phi by (unfold phi; field).
+      replace (1 / 2 * (alt - 0 + alt)) with alt by field.
+      unfold cn. field. split; lra.
+  - apply (is_derive_ext (fun d => d * (ce * (PI / 180) *
+             ((R_transverse A_ E2_ (1 / 2 * (lat + lat) * (PI / 180)) + 1 / 2 * (alt - 0 + alt)) *
+              sqrt (1 - sin (1 / 2 * (lat + lat) * (PI / 180)) * sin (1 / 2 * (lat + lat) * (PI / 180))))))).
+    { intro d. destruct (perturb_lla_char lat lon alt 0 d 0 Hlat Halt') as [P1 [P2 P3]]. cbv zeta in *.
+      fold phi cn ce in P1, P2. rewrite P1, P2, P3.
+      destruct (lla_difference_char (lat + 0 * cn) (lon + d * ce) (alt - 0) lat lon alt) as [_ [E1 _]].
+      cbv zeta in E1. rewrite E1.
+      replace (lat + 0 * cn + lat) with (lat + lat) by ring. ring_R. }
+    apply deriv_at0_of_factor.
+    + apply ex_derive_const.
+    + replace (1 / 2 * (lat + lat) * (PI / 180)) with phi by (unfold phi; field).
+      replace (1 / 2 * (alt - 0 + alt)) with alt by field.
+      rewrite Hs. unfold ce. field. repeat split; lra.
+  - apply (is_derive_ext (fun d => d)).
+    { intro d. destruct (perturb_lla_char lat lon alt 0 0 d Hlat Halt') as [P1 [P2 P3]]. cbv zeta in *.
+      rewrite P1, P2, P3.
+      match goal with |- _ = compute_lla_difference_d2 ?a ?b ?c ?d' ?e ?f =>
+        destruct (lla_difference_char a b c d' e f) as [_ [_ E2]] end.
+      rewrite E2. lra. }
+    auto_derive; [exact I|ring_R].
 Qed.
 
 (** ** 5. Gravity, gravitation, Earth rate: one field in all representations *)
 
 Ltac unf_grav := unfold gravity_g, nb_gravity_g, gravity_n_g0, gravity_n_g1, gravity_n_g2;
-                 repeat autounfold with gravity_db nb_gravity_db gravity_n_db.
+                 repeat autounfold with gravity_db nb_gravity_db gravity_n_db; canon_W.
+
+(* the three generated copies of the gravity magnitude against one written formula (Somigliana, free-air) *)
+Definition gravity_spec (lat alt : R) : R :=
+  GE_ * (1 + FG_ * (sin (lat * (PI / 180)) * sin (lat * (PI / 180)))) /
+  sqrt (1 - 66943799901413 / 10000000000000000 * (sin (lat * (PI / 180)) * sin (lat * (PI / 180)))) *
+  (1 - 2 * alt / A_).
+
+Lemma gravity_char lat alt :
+  gravity_g lat alt = gravity_spec lat alt /\ nb_gravity_g lat alt = gravity_spec lat alt /\
+  gravity_n_g2 lat alt = gravity_spec lat alt.
+Proof.
+  unfold gravity_spec, GE_, FG_, A_. unf_grav. canon.
+  set (phi := lat * (PI/180)). with_q phi. repeat split; field; lra.
+Qed.
 
 Lemma gravity_copies_equal lat alt : nb_gravity_g lat alt = gravity_g lat alt.
-Proof. unf_grav. reflexivity. Qed.
+Proof. destruct (gravity_char lat alt) as [E1 [E2 _]]. rewrite E1, E2. reflexivity. Qed.
 
 Lemma gravity_n_is_down lat alt :
   gravity_n_g0 lat alt = 0 /\ gravity_n_g1 lat alt = 0 /\ gravity_n_g2 lat alt = gravity_g lat alt.
-Proof. unf_grav. repeat split; reflexivity. Qed.
+Proof.
+  destruct (gravity_char lat alt) as [E1 [_ E3]]. rewrite E1, E3.
+  unfold gravity_n_g0, gravity_n_g1. repeat split; ring.
+Qed.
 
 Lemma neg_d2r lat : - lat * (PI / 180) = - (lat * (PI / 180)).
 Proof. ring. Qed.
 
 Lemma gravity_even lat alt : gravity_g (- lat) alt = gravity_g lat alt.
 Proof.
-  unf_grav. rewrite neg_d2r, sin_neg.
+  rewrite (proj1 (gravity_char (- lat) alt)), (proj1 (gravity_char lat alt)).
+  unfold gravity_spec. rewrite neg_d2r, sin_neg.
   replace (- sin (lat * (PI / 180)) * - sin (lat * (PI / 180)))
     with (sin (lat * (PI / 180)) * sin (lat * (PI / 180))) by ring.
   reflexivity.
@@ -342,7 +485,8 @@ Qed.
 
 Lemma gravity_positive lat alt : alt < 3000000 -> 0 < gravity_g lat alt.
 Proof.
-  intro Ha. unf_grav. set (phi := lat * (PI/180)). with_q phi.
+  intro Ha. rewrite (proj1 (gravity_char lat alt)). unfold gravity_spec, GE_, FG_, A_.
+  set (phi := lat * (PI/180)). with_q phi.
   pose proof (sin2_le1 phi). assert (0 <= sin phi * sin phi) by nra.
   apply Rmult_lt_0_compat; [apply Rdiv_lt_0_compat; [nra|lra]|lra].
 Qed.
@@ -369,14 +513,12 @@ Lemma ecef_parity lat lon alt :
   lla_to_ecef_r1 (- lat) lon alt = lla_to_ecef_r1 lat lon alt /\
   lla_to_ecef_r2 (- lat) lon alt = - lla_to_ecef_r2 lat lon alt.
 Proof.
-  unf_ecef. rewrite !neg_d2r, !sin_neg, !cos_neg.
-  replace (- sin (lat * (PI / 180)) * - sin (lat * (PI / 180)))
-    with (sin (lat * (PI / 180)) * sin (lat * (PI / 180))) by ring.
+  unf_ecef. rewrite !neg_d2r, !sin_neg, !cos_neg. canon.
   repeat split; ring.
 Qed.
 
 Ltac unf_gravitation := unfold gravitation_ecef_g0, gravitation_ecef_g1, gravitation_ecef_g2;
-                        repeat autounfold with gravitation_ecef_db.
+                        repeat autounfold with gravitation_ecef_db; canon_W.
 
 (** gravitation = gravity (g along "down") minus centrifugal acceleration w^2 (x, y, 0). *)
 Lemma gravitation_is_gravity_minus_centrifugal lat lon alt :
@@ -392,7 +534,7 @@ Lemma gravitation_is_gravity_minus_centrifugal lat lon alt :
 Proof.
   intros Hlat. cbv zeta. unfold centrifugal_x, centrifugal_y, centrifugal_z, RATE_.
   unf_gravitation. unf_grav. unf_en. unf_ecef.
-  rewrite !cos_m90, !sin_m90.
+  rewrite !cos_m90, !sin_m90. canon.
   rewrite (sqrt_1msin2 (lat * (PI/180))) by (apply cos_d2r_nonneg; exact Hlat).
   set (phi := lat * (PI/180)). set (lam := lon * (PI/180)).
   assert (Hp : sin phi * sin phi = 1 - cos phi * cos phi) by (pose proof (sc1 phi); lra).
